@@ -49,6 +49,30 @@ def gen_scripts(tier, r):
         h = s + r.randrange(0, 3000)
         S.append(("past-hint", [f"new {s} {h}", f"next {r.randrange(300, 1500)}", "prev 5", "next 7"]))
         S.append(("past-hint-bwd", [f"new {s} {max(0, s - r.randrange(0, 3000))}", f"prev {r.randrange(300, 1500)}", "next 5"]))
+    # --- chunk bounds on the edges of the cached-prime table (<= 719) and of the sentinel (<= 2):
+    #     backward chunk [a, start] with a in {0..4, 716..724}, forward chunk [s, stop] with stop there
+    import math
+    def gap(h):
+        return int(math.log(max(8.0, float(h))) ** 2)
+    edges = [0, 1, 2, 3, 4] + list(range(716, 725))
+    for a in edges:
+        st = a + 2876                      # first unhinted backward chunk is [start - 2876, start] here
+        S.append(("bwd-chunk-edge", [f"new {st} {UMAX}", f"prev {len(oracle.primes_in(0, st)) + 3}", "next 2"]))
+        for h in range(a, a + 120):
+            if h - gap(h) == a:
+                st = h + r.randrange(0, 800)
+                S.append(("bwd-chunk-edge-hint", [f"new {st} {h}", f"prev {len(oracle.primes_in(0, st)) + 3}", "next 2"]))
+                break
+        if a > 100:
+            for h in range(a - 120, a):
+                if h + gap(h) == a:
+                    s0 = r.randrange(max(0, h - 300), h + 1)
+                    S.append(("fwd-stop-edge", [f"new {s0} {h}", f"next {r.randrange(40, 200)}", "prev 3"]))
+                    break
+    sweep = range(3585, 3606) if q else range(0, 6001)
+    for st in sweep:
+        if q or st % 1 == 0:
+            S.append(("bwd-sweep", [f"new {st} {UMAX}", f"prev {len(oracle.primes_in(0, st)) + 2}"]))
     # --- descending to 0 and staying there
     for s in [0, 1, 2, 3, 10, 100, 1000, 5000]:
         S.append(("to-zero", [f"new {s} {_hint(r, s)}", f"prev {len(oracle.primes_in(0, s)) + 4}", "next 3", "prev 4"]))
